@@ -619,7 +619,8 @@ def run_case(case, col, record=True):
 # ------------------------------------------------------------------------------------
 
 D = 'ABCDEFGHIJKLMNOPQRSTUVWXYZ0123456789_'
-NASTY = list('ABCXYZabcxyz0189__--..;; ~+$\x01\x07\x1f\x7f\n\r\t') + list(EXPANDERS) + ['ı', '́', '̈', 'é', 'Ж', 'ж', '日', '😀', '𝔘']
+NASTY = list('ABCXYZabcxyz0189__--..;; ~+$\x01\x07\x1f\x7f\n\r\t') + list(EXPANDERS) + ['ı', '́', '̈', 'é', 'Ж', 'ж', '日', '😀', '𝔘',
+                                                                                         '٣', '३', '３', '๔', '²', 'Ⅷ']      # decimal digits (and digit-likes) that are not 0-9
 
 d_text = lambda a, b: st.text(alphabet=D, min_size=a, max_size=b)
 
